@@ -81,6 +81,9 @@ class PartsModel:
             if c is not None:
                 return SStr(str(int(c)))
             return SParts([("int", x.t)])
+        if isinstance(x, SNum) and not x.is_int and not x.extended and conv in (None, "s", "r"):
+            # str/repr of a float: some text that evals back to the same float (assumption A12)
+            return SParts([("float", x.real())])
         return NotImplemented
 
     def format(self, I, s, args, kw):
